@@ -69,6 +69,9 @@ THEOREMS = [
     "AiuVerif.C11.fold_rows_eq_util",
     "AiuVerif.C11.rows_from_empty",
     "AiuVerif.C11.single_table_parse",
+    "AiuVerif.C11.catSplit_plain",
+    "AiuVerif.C11.catSplit_opcat",
+    "AiuVerif.C11.category_opcat",
     "AiuVerif.C11.pt_active_formula",
     "AiuVerif.C11.table_lookup_spec",
     "AiuVerif.C11.masked_name_lookup",
